@@ -176,3 +176,4 @@ def run(ctx):
         if i < 3:
             cov.sample({"spec": spec, "mode": mode, "eps": eps, "n": n, "calls": calls, "map": dict(est.map)})
     e2e.smap_histories(ctx, "C09", ctx.scale(200, 4000), ctx.scale(16, 60))
+    e2e.smap_epoch_histories(ctx, "C09", ctx.scale(80, 1500), ctx.scale(12, 40))
